@@ -193,6 +193,33 @@ macro_rules! float_entries { ($v:ident, $F:ty, $ft:expr, $WD:ident) => {{
         ent!($v, "Zipf", $ft, "-", [n, s], Zipf::<F>::new(n, s).ok().and_then(bx::<_, F>)); }
     for s in [2.0 as F, 1.05, 100.0, 10.0, 1.5, 1.001, ulp_up(1.0)] {
         ent!($v, "Zeta", $ft, "-", [s], Zeta::<F>::new(s).ok().and_then(bx::<_, F>)); }
+    // beyond envelope E: only the termination / budget rule of C05 is judged there ("there is no parameter
+    // value that makes sampling loop forever"); support, laws and the object model skip these entries
+    {
+        let huge: F = if $ft == "f32" { 1e30 } else { 1e155f64 as F };
+        let vhuge: F = if $ft == "f32" { 3e38 } else { 1e300f64 as F };
+        let tiny: F = if $ft == "f32" { 1e-30 } else { 1e-200f64 as F };
+        for (a, bb) in [(huge, huge), (vhuge, huge), (tiny, tiny), (tiny, huge), (huge, tiny), (vhuge, vhuge)] {
+            ent!($v, "Beta", $ft, "beyond-E", [a, bb], Beta::<F>::new(a, bb).ok().and_then(b::<_, F>)); }
+        for (k, t) in [(huge, 1.0 as F), (tiny, 1.0), (vhuge, tiny), (tiny, huge)] {
+            ent!($v, "Gamma", $ft, "beyond-E", [k, t], Gamma::<F>::new(k, t).ok().and_then(b::<_, F>)); }
+        for k in [huge, tiny, vhuge] {
+            ent!($v, "ChiSquared", $ft, "beyond-E", [k], ChiSquared::<F>::new(k).ok().and_then(b::<_, F>));
+            ent!($v, "StudentT", $ft, "beyond-E", [k], StudentT::<F>::new(k).ok().and_then(b::<_, F>)); }
+        for (m, n) in [(huge, tiny), (tiny, huge), (vhuge, vhuge)] {
+            ent!($v, "FisherF", $ft, "beyond-E", [m, n], FisherF::<F>::new(m, n).ok().and_then(b::<_, F>)); }
+        for s in [ulp_up(ulp_up(1.0 as F)), huge] {
+            ent!($v, "Zeta", $ft, "beyond-E", [s], Zeta::<F>::new(s).ok().and_then(bx::<_, F>)); }
+        for (n, s) in [(vhuge, 2.0 as F), (vhuge, 1.0), (huge, 0.5), (2.0, huge)] {
+            ent!($v, "Zipf", $ft, "beyond-E", [n, s], Zipf::<F>::new(n, s).ok().and_then(bx::<_, F>)); }
+        for l in [1.844e19 as F, tiny] {
+            ent!($v, "Poisson", $ft, "beyond-E", [l], Poisson::<F>::new(l).ok().and_then(b::<_, F>)); }
+        for (sc, sh) in [(1.0 as F, tiny), (1.0, huge)] {
+            ent!($v, "Weibull", $ft, "beyond-E", [sc, sh], Weibull::<F>::new(sc, sh).ok().and_then(b::<_, F>));
+            ent!($v, "Pareto", $ft, "beyond-E", [sc, sh], Pareto::<F>::new(sc, sh).ok().and_then(b::<_, F>)); }
+        for (m, l) in [(huge, tiny), (tiny, huge)] {
+            ent!($v, "InverseGaussian", $ft, "beyond-E", [m, l], InverseGaussian::<F>::new(m, l).ok().and_then(b::<_, F>)); }
+    }
     let d64: Vec<F> = (0..64).map(|i| 0.01 * (1 + i) as F * (1 + i) as F).collect();
     for (al, var) in [(vec![0.05 as F, 0.025, 0.075, 0.0625], "FromBeta"), (vec![0.5, 2.0, 0.075, 7.0], "FromGamma"), (vec![1.0, 1.0], "FromGamma"),
                       (vec![0.1, 0.1, 0.1], "FromBeta"), (vec![0.01, 0.01], "FromBeta"), (vec![1e3, 1e-2, 5.0], "FromGamma"), (d64, "FromGamma")] {
@@ -247,6 +274,12 @@ pub fn registry() -> Vec<Entry> {
                         (1u64 << 40, 3.0 / (1u64 << 40) as f64, "Binv"), (1u64 << 40, 8.0 / (1u64 << 40) as f64, "Binv"), (1u64 << 50, 0.5 / (1u64 << 50) as f64, "Binv"),
                         (1u64 << 50, 6.0 / (1u64 << 50) as f64, "Binv"), (1u64 << 52, 3.5e-16, "Binv"), (1u64 << 45, 9.5 / (1u64 << 45) as f64, "Binv"), (1u64 << 63, 1e-18, "Binv"), (1u64 << 32, 2.5e-9, "Btpe")] {
         ent!(v, "Binomial", "int", var, [n, p], Binomial::new(n, p).ok().and_then(b::<_, u64>)); }
+    // BINV with huge n: a grid of n*p in (0, 10) and p down to the resolution of 1 - p
+    for e in [35u32, 40, 45, 50, 55] { for np in [0.5f64, 1.0, 2.0, 5.0, 9.0] {
+        let n = 1u64 << e; let p = np / n as f64;
+        ent!(v, "Binomial", "int", "Binv huge n", [n, p], Binomial::new(n, p).ok().and_then(b::<_, u64>)); } }
+    for k in 2..10u32 { let n = 1u64 << 52; let p = 1.5e-16 * k as f64;
+        ent!(v, "Binomial", "int", "Binv p near resolution", [n, p], Binomial::new(n, p).ok().and_then(b::<_, u64>)); }
     for p in [1.0f64, 0.9, 2.0 / 3.0, 0.66, 0.5, 0.25, 0.01, 1e-9, 0.0, 1e-17] {
         ent!(v, "Geometric", "int", "-", [p], Geometric::new(p).ok().and_then(b::<_, u64>)); }
     for (nn, k, s, var) in [(10u64, 5u64, 5u64, "HIN"), (9, 3, 5, "HIN"), (9, 6, 4, "HIN"), (100, 30, 20, "HIN"), (100, 70, 80, "HIN"), (1000, 500, 500, "H2PE"), (1000, 501, 500, "H2PE"),
